@@ -200,6 +200,21 @@ func runFetch(tb ev.TB, c fetchCase) (labels []string, ok bool) {
 					lab["v1_wrapper"] = true
 				}
 			}
+			// a compacted format-1 wrapper in the response: the known mis-numbering of its
+			// records also shifts which records pass the offset filter, so every record
+			// difference in such a response is attributed to it
+			respSparse := false
+			for _, u := range units {
+				if n := len(u.Records); u.Magic <= 1 && n > 1 && u.Records[n-1].Offset-u.Records[0].Offset != int64(n-1) {
+					respSparse = true
+				}
+			}
+			fail := func(sig, format string, args ...any) {
+				if respSparse && (strings.HasPrefix(sig, "c05/fetch-") && !strings.HasPrefix(sig, "c05/fetch-error")) {
+					sig = "c05/v1-wrapper-sparse-offsets"
+				}
+				fail(sig, format, args...)
+			}
 			if firstBad >= 0 && !hasCorrupt(c.Layout.Batches) {
 				tb.Fatalf("harness: the reference decoder rejects a served batch although none was corrupted: %s", units[firstBad].BadWhy)
 			}
@@ -521,6 +536,33 @@ func genFetchCase(t *rapid.T) fetchCase {
 	}
 	if rapid.IntRange(0, 3).Draw(t, "injectBig") == 0 {
 		injectBig(t, l.Batches)
+	}
+	if feature == 3 || feature == 4 {
+		// a format-1 wrapper after log compaction: records removed from the middle, the
+		// relative inner offsets keep the holes, the wrapper has the last absolute offset
+		var idx []int
+		for i, b := range l.Batches {
+			if b.Magic == 1 && b.Codec != 0 && len(b.Records) >= 3 {
+				idx = append(idx, i)
+			}
+		}
+		if len(idx) > 0 {
+			i := idx[rapid.IntRange(0, len(idx)-1).Draw(t, "compactedWrapper")]
+			recs := l.Batches[i].Records
+			kept := []refcodec.Record{recs[0]}
+			removed := 0
+			for j := 1; j < len(recs)-1; j++ {
+				if removed == 0 && j == len(recs)-2 || rapid.Bool().Draw(t, "cleaned") {
+					removed++
+					continue
+				}
+				kept = append(kept, recs[j])
+			}
+			kept = append(kept, recs[len(recs)-1])
+			l.Batches[i].Records = kept
+			l.Batches[i].SparseInner = true
+			l.Labels = append(l.Labels, "v1_wrapper_compacted")
+		}
 	}
 	l.Records = logsim.Model(l.Batches)
 	l.End = logsim.End(l.Batches)
